@@ -198,6 +198,20 @@ type sessionOut struct {
 	honestProof  string // "", "ok", or a description of what is wrong
 	presentedKey crypto.PubKey
 	played       bool // the tampered auth message (or eph) was fully written
+	// truncation classes: the bytes cut off are all zero. A decoder that zero-fills a short
+	// value (ser does: the error of the concrete decoder inside an interface is dropped)
+	// reconstructs the complete, valid proof from such a message, so accepting it is
+	// leniency towards a malformed message, not a connection without proof of possession.
+	cutTailZero bool
+}
+
+func allZero(b []byte) bool {
+	for _, x := range b {
+		if x != 0 {
+			return false
+		}
+	}
+	return true
 }
 
 type authCase struct {
@@ -366,9 +380,11 @@ func (ac *authCase) script(rm *remote, class string, r *rng.R, out *sessionOut) 
 	case "truncated-auth-payload":
 		full := enc(me.PubKey(), mustSign(me, challenge))
 		payload = full[:r.Range(1, len(full)-1)]
+		out.cutTailZero = allZero(full[len(payload):])
 	case "truncated-auth-frame":
 		full := frame(enc(me.PubKey(), mustSign(me, challenge)))
 		rawFrame = full[:r.Range(1, len(full)-1)]
+		out.cutTailZero = allZero(full[len(rawFrame):])
 	case "sig-type-mismatch":
 		switch me.PubKey().(type) {
 		case crypto.PubKeyEd25519:
@@ -544,6 +560,10 @@ func runAuth(c *core.Ctx, procs int) {
 		}
 		c.Count("hs_played_"+class, 1)
 		ac.classes[class] = true
+		if accepted && out.cutTailZero {
+			c.Count("diag_truncated_zero_tail_accepted", 1)
+			continue
+		}
 		if accepted {
 			c.Violation("handshake/accepted/"+class,
 				fmt.Sprintf("the honest side established a connection (remote pubkey reported: %s %v) although the remote did not prove possession of that key: %s",
